@@ -21,6 +21,8 @@
 (*     (integer-valued constants of projected problems, divisions,         *)
 (*     interpreted functions): INT_* or REAL_*;                            *)
 (*   * HTN task order: a weaker order class may always be declared.        *)
+(* The label of such a demand is its first (most specific) feature name    *)
+(* followed by "+" (printed tuples must stay short: TLC wraps long lines). *)
 (* The property is one-directional: features of K that nothing demands are *)
 (* never reported.                                                         *)
 (*                                                                         *)
@@ -39,10 +41,12 @@ Cat(ss) == LET RECURSIVE C(_)
                C(i) == IF i > Len(ss) THEN <<>> ELSE ss[i] \o C(i + 1)
            IN C(1)
 Tag(s, pos) == [i \in DOMAIN s |-> [pos |-> pos, x |-> s[i]]]
+\* effects additionally carry the container they belong to
+TagIn(s, pos, owner) == [i \in DOMAIN s |-> [pos |-> pos, x |-> s[i], owner |-> owner]]
 
 D(f, pos) == [any |-> {f}, label |-> f, pos |-> pos]
-D2(f, g, pos) == [any |-> {f, g}, label |-> f \o "|" \o g, pos |-> pos]
-D3(f, g, h, pos) == [any |-> {f, g, h}, label |-> f \o "|" \o g \o "|" \o h, pos |-> pos]
+D2(f, g, pos) == [any |-> {f, g}, label |-> f \o "+", pos |-> pos]
+D3(f, g, h, pos) == [any |-> {f, g, h}, label |-> f \o "+", pos |-> pos]
 
 \* ---------- expressions ----------
 RECURSIVE Ops(_)
@@ -74,17 +78,21 @@ CEffsOf(a) == [i \in DOMAIN a.ceffects |-> a.ceffects[i].e]
 
 \* all effects of the problem, tagged with their syntactic position
 AllEffects(P) ==
-   Cat([i \in DOMAIN P.actions |-> Tag(EffsOf(P.actions[i]), IF IsDur(P.actions[i]) THEN "durative-action-effect" ELSE "action-effect")])
-   \o Cat([i \in DOMAIN P.actions |-> Tag(CEffsOf(P.actions[i]), "continuous-effect")])
-   \o Cat([i \in DOMAIN P.events |-> Tag(P.events[i].effects, "event-effect")])
-   \o Cat([i \in DOMAIN P.processes |-> Tag(P.processes[i].effects, "process-effect")])
-   \o Tag([i \in DOMAIN P.timed_effects |-> P.timed_effects[i].e], "timed-effect")
+   Cat([i \in DOMAIN P.actions |-> TagIn(EffsOf(P.actions[i]), IF IsDur(P.actions[i]) THEN "durative-action-effect" ELSE "action-effect", "action " \o P.actions[i].name)])
+   \o Cat([i \in DOMAIN P.actions |-> TagIn(CEffsOf(P.actions[i]), "continuous-effect", "action " \o P.actions[i].name)])
+   \o Cat([i \in DOMAIN P.events |-> TagIn(P.events[i].effects, "event-effect", "event " \o P.events[i].name)])
+   \o Cat([i \in DOMAIN P.processes |-> TagIn(P.processes[i].effects, "process-effect", "process " \o P.processes[i].name)])
+   \o TagIn([i \in DOMAIN P.timed_effects |-> P.timed_effects[i].e], "timed-effect", "problem")
 
 \* "static fluents (that may never change)": no effect of the problem (and no simulated effect) targets them
 DynamicOf(P, AE) ==
    {AE[i].x.f.name : i \in DOMAIN AE}
    \cup UNION {Range(P.actions[i].simf) : i \in DOMAIN P.actions}
    \cup UNION {Range(P.events[i].simf) : i \in DOMAIN P.events}
+
+\* P.invforms[i] tells how the i-th state invariant is written: "plain" (Always(e) is a trajectory constraint of its
+\* own), "and" (Always(e) is a conjunct of a trajectory constraint), "forall" (Forall(Always(e)))
+InvariantPos(P, i) == IF P.invforms[i] = "plain" THEN "state-invariant" ELSE "state-invariant-in-" \o P.invforms[i]
 
 \* every Boolean expression that the problem requires to hold somewhere ("condition"), with its position
 CondsOf(P, AE) ==
@@ -95,7 +103,7 @@ CondsOf(P, AE) ==
    \o [i \in DOMAIN AE |-> [pos |-> AE[i].pos \o "-condition", x |-> AE[i].x.c]]
    \o Tag(P.goals, "goal")
    \o Tag([i \in DOMAIN P.timed_goals |-> P.timed_goals[i].g], "timed-goal")
-   \o Tag(P.invariants, "state-invariant")
+   \o [i \in DOMAIN P.invariants |-> [pos |-> InvariantPos(P, i), x |-> P.invariants[i]]]
    \o Tag(P.traj, "trajectory-constraint")
    \o Cat([i \in DOMAIN P.metrics |-> Tag([j \in DOMAIN P.metrics[i].goals |-> P.metrics[i].goals[j].g], "oversubscription-goal")])
    \o Cat([i \in DOMAIN P.metrics |-> Tag([j \in DOMAIN P.metrics[i].tgoals |-> P.metrics[i].tgoals[j].g], "temporal-oversubscription-goal")])
@@ -140,9 +148,20 @@ ClassDemands(P) ==
 
 \* TYPING.  FLAT_TYPING "The problem uses user-defined types, but no type inherits from another."
 \* HIERARCHICAL_TYPING "At least one user-defined type in the problem inherits from another type."
+\* the position names what uses user types: o(bjects) f(luent types) p(arameters of fluents) a(ction, event and
+\* process parameters); "types:-" when only other elements (e.g. HTN tasks and methods) do
+IsUser(t) == t.k = "user"
+TypeUses(P) ==
+   LET CS == Containers(P) IN
+   (IF Len(P.objects) > 0 THEN "o" ELSE "")
+   \o (IF \E i \in DOMAIN P.fluents : IsUser(P.fluents[i].type) THEN "f" ELSE "")
+   \o (IF \E i \in DOMAIN P.fluents : \E j \in DOMAIN P.fluents[i].sig : IsUser(P.fluents[i].sig[j].type) THEN "p" ELSE "")
+   \o (IF \E i \in DOMAIN CS : \E j \in DOMAIN CS[i].x.params : IsUser(CS[i].x.params[j].type) THEN "a" ELSE "")
 TypingDemands(P) ==
-   IF \E i \in DOMAIN P.types : P.types[i].parent # "" THEN {D("HIERARCHICAL_TYPING", "types")}
-   ELSE IF Len(P.types) > 0 THEN {D("FLAT_TYPING", "types")} ELSE {}
+   LET u == TypeUses(P)
+       pos == "types:" \o (IF u = "" THEN "-" ELSE u) IN
+   IF \E i \in DOMAIN P.types : P.types[i].parent # "" THEN {D("HIERARCHICAL_TYPING", pos)}
+   ELSE IF Len(P.types) > 0 THEN {D("FLAT_TYPING", pos)} ELSE {}
 
 \* fluents occurring anywhere but in duration bounds and action costs (for the unspecified zone above)
 ExprsButDurCost(P, AE, C) ==
@@ -239,10 +258,13 @@ EffectDemands(P, AE, Dyn) ==
 
 \* NON_LINEAR_CONTINUOUS_EFFECTS "At least one continuous effect is described by a differential equation
 \* that depends on a continuous variable."  A continuous variable is a fluent changed by some continuous effect.
-ContinuousVars(AE) == {AE[i].x.f.name : i \in {j \in DOMAIN AE : AE[j].x.kind \in {"cinc", "cdec"}}}
+\* (position suffix "-other-container": the continuous variable read is changed by another action / process only)
 NonLinearDemands(AE) ==
-   LET CV == ContinuousVars(AE) IN
-   {D("NON_LINEAR_CONTINUOUS_EFFECTS", AE[i].pos) : i \in {j \in DOMAIN AE : AE[j].x.kind \in {"cinc", "cdec"} /\ FluentsIn(AE[j].x.v) \cap CV # {}}}
+   LET CE == {j \in DOMAIN AE : AE[j].x.kind \in {"cinc", "cdec"}}
+       CV == {AE[i].x.f.name : i \in CE}
+       Here(i) == {AE[j].x.f.name : j \in {k \in CE : AE[k].owner = AE[i].owner}} IN
+   {D("NON_LINEAR_CONTINUOUS_EFFECTS", AE[i].pos \o (IF FluentsIn(AE[i].x.v) \cap Here(i) # {} THEN "" ELSE "-other-container"))
+      : i \in {j \in CE : FluentsIn(AE[j].x.v) \cap CV # {}}}
 
 \* SIMULATED_ENTITIES.  SIMULATED_EFFECTS "The problem uses at least one simulated effect."
 SimDemands(P) == LET CS == Containers(P) IN {D("SIMULATED_EFFECTS", CS[i].pos) : i \in {j \in DOMAIN CS : CS[j].x.sim}}
@@ -319,7 +341,7 @@ MetricDemands(P, Dyn) ==
 \* CONSTRAINTS_KIND.  STATE_INVARIANTS "The problem uses at least one state invariants.",
 \* TRAJECTORY_CONSTRAINTS "The problem uses at least one LTL trajectory constraint."
 ConstraintDemands(P) ==
-   (IF Len(P.invariants) > 0 THEN {D("STATE_INVARIANTS", "state-invariant")} ELSE {})
+   {D("STATE_INVARIANTS", InvariantPos(P, i)) : i \in DOMAIN P.invariants}
    \cup (IF Len(P.traj) > 0 THEN {D("TRAJECTORY_CONSTRAINTS", "trajectory-constraint")} ELSE {})
 
 \* INITIAL_STATE.  UNDEFINED_INITIAL_NUMERIC "At least one numeric state variable has an undefined value in
@@ -434,13 +456,7 @@ SpecFeatures ==
     "OPTIONAL_ACTIVITIES", "SCOPED_CONSTRAINTS"}
 \* labels of the two- and three-way demands
 SpecChoices ==
-   {"STATIC_FLUENTS_IN_BOOLEAN_ASSIGNMENTS|FLUENTS_IN_BOOLEAN_ASSIGNMENTS",
-    "STATIC_FLUENTS_IN_NUMERIC_ASSIGNMENTS|FLUENTS_IN_NUMERIC_ASSIGNMENTS",
-    "STATIC_FLUENTS_IN_OBJECT_ASSIGNMENTS|FLUENTS_IN_OBJECT_ASSIGNMENTS",
-    "STATIC_FLUENTS_IN_DURATIONS|FLUENTS_IN_DURATIONS",
-    "STATIC_FLUENTS_IN_ACTIONS_COST|FLUENTS_IN_ACTIONS_COST",
-    "INT_TYPE_DURATIONS|REAL_TYPE_DURATIONS",
-    "INT_NUMBERS_IN_ACTIONS_COST|REAL_NUMBERS_IN_ACTIONS_COST",
-    "TASK_ORDER_PARTIAL|TASK_ORDER_TEMPORAL",
-    "TASK_ORDER_TOTAL|TASK_ORDER_PARTIAL|TASK_ORDER_TEMPORAL"}
+   {"STATIC_FLUENTS_IN_BOOLEAN_ASSIGNMENTS+", "STATIC_FLUENTS_IN_NUMERIC_ASSIGNMENTS+", "STATIC_FLUENTS_IN_OBJECT_ASSIGNMENTS+",
+    "STATIC_FLUENTS_IN_DURATIONS+", "STATIC_FLUENTS_IN_ACTIONS_COST+", "INT_TYPE_DURATIONS+", "INT_NUMBERS_IN_ACTIONS_COST+",
+    "TASK_ORDER_PARTIAL+", "TASK_ORDER_TOTAL+"}
 =============================================================================
